@@ -1644,6 +1644,8 @@ void UniCompiler::add_ext(const Gp& dst, const Gp& src_, const Gp& idx_, uint32_
 
   if (src.id() == idx.id()) {
     cc->imul(dst, src, scale + 1);
+    if (disp)
+      cc->add(dst, disp);
     return;
   }
 
@@ -1655,7 +1657,7 @@ void UniCompiler::add_ext(const Gp& dst, const Gp& src_, const Gp& idx_, uint32_
 
   Gp tmp = new_similar_reg(dst);
   cc->imul(tmp, idx, scale);
-  cc->lea(dst, x86::ptr(src, tmp));
+  cc->lea(dst, x86::ptr(src, tmp, 0, disp));
 }
 
 void UniCompiler::lea(const Gp& dst, const Mem& src) {
